@@ -30,7 +30,7 @@ func genC02(t *rapid.T) C02Case {
 	cfg.BadIntentPct = 2
 	cfg.SharedPct = 30
 	cfg.ForkPct = 25
-	cfg.Kinds = []string{"pay", "sf", "form", "form", "fcop", "fcop", "fcop", "fcop", "attest", "foundation", "arb"}
+	cfg.Kinds = []string{"pay", "sf", "form", "form", "formprove", "fcop", "fcop", "fcop", "fcop", "attest", "foundation", "arb"}
 	tc := kit.GenTree(t, cfg)
 	c := C02Case{Tree: tc, Steps: kit.GenSchedule(t, len(tc.Blocks), 30), Backend: kit.Uniform(t, 10, "backend")}
 	if kit.Chance(t, 35, "cp") {
